@@ -1,5 +1,6 @@
 import CloakModel.Props.E2E
 import CloakModel.Props.C05
+import CloakModel.Props.C01Relay
 
 /-! # End to end, from the bytes on each connection (C05 ∘ C04 ∘ C01)
 
